@@ -303,17 +303,18 @@ theorem cmpV_inert (op : Cmp) {a b : Val} (ha : BoolV a) (hb : BoolV b) (hok : c
 
 
 /-! ## `if_then_else` -/
-theorem zipWithM'_inert {f : Val → Val → M Val}
-    (hf : ∀ t g, BoolV t → BoolV g → InertV p res (f t g)) :
-    ∀ (ts gs : List Val), (∀ v ∈ ts, BoolV v) → (∀ v ∈ gs, BoolV v) →
+theorem zipWithM'_inert {f : Val → Val → M Val} {P : Val → Val → Bool}
+    (hf : ∀ t g, BoolV t → BoolV g → P t g = true → InertV p res (f t g)) :
+    ∀ (ts gs : List Val), (∀ v ∈ ts, BoolV v) → (∀ v ∈ gs, BoolV v) → zipAllB P ts gs = true →
       Inert true p res (fun rs => ∀ r ∈ rs, BoolV r) (zipWithM' f ts gs)
-  | [], _, _, _ => by simp only [zipWithM']; exact Inert.pure (by simp)
-  | _ :: _, [], _, _ => by simp only [zipWithM']; exact Inert.pure (by simp)
-  | t :: ts, g :: gs, ht, hg => by
+  | [], _, _, _, _ => by simp only [zipWithM']; exact Inert.pure (by simp)
+  | _ :: _, [], _, _, _ => by simp only [zipWithM']; exact Inert.pure (by simp)
+  | t :: ts, g :: gs, ht, hg, hP => by
+    simp only [zipAllB, Bool.and_eq_true] at hP
     simp only [zipWithM']
-    refine Inert.bind (hf t g (ht t (List.mem_cons_self ..)) (hg g (List.mem_cons_self ..))) (fun r hr => ?_)
+    refine Inert.bind (hf t g (ht t (List.mem_cons_self ..)) (hg g (List.mem_cons_self ..)) hP.1) (fun r hr => ?_)
     refine Inert.bind (zipWithM'_inert hf ts gs (fun v hv => ht v (List.mem_cons_of_mem _ hv))
-      (fun v hv => hg v (List.mem_cons_of_mem _ hv))) (fun rs hrs => ?_)
+      (fun v hv => hg v (List.mem_cons_of_mem _ hv)) hP.2) (fun rs hrs => ?_)
     refine Inert.pure ?_
     intro v hv
     rcases List.mem_cons.mp hv with rfl | hv
@@ -332,12 +333,12 @@ theorem iteBB_inert {zd : Bool} {cond x y : LinComb} (hc : cond.value = 0 ∨ co
   subst hr; exact BoolV_lcb.mpr hb
 
 theorem iteAux_inert {cond : LinComb} (hc : cond.value = 0 ∨ cond.value = 1) : ∀ (fuel : Nat) (t f : Val), BoolV t → BoolV f →
-    InertV p res (iteAux cond fuel t f) := by
+    zipOk fuel t f = true → InertV p res (iteAux cond fuel t f) := by
   intro fuel
   induction fuel with
-  | zero => intro t f _ _; simp only [iteAux]; exact Inert.raise rfl
+  | zero => intro t f _ _ _; simp only [iteAux]; exact Inert.raise rfl
   | succ n ih =>
-    intro t f ht hf
+    intro t f ht hf hz
     by_cases hbb : bothLcb t f = true
     · cases t <;> cases f <;> simp only [bothLcb, reduceCtorEq] at hbb
       rw [iteAux_bb]
@@ -361,12 +362,16 @@ theorem iteAux_inert {cond : LinComb} (hc : cond.value = 0 ∨ cond.value = 1) :
       case list ts =>
         cases f
         case list fs =>
+          obtain ⟨hl, hz'⟩ := zipOk_list hz
           dsimp only
-          refine Inert.bind (zipWithM'_inert (fun a b ha hb => ih a b ha hb) ts fs (BoolV_list.mp ht) (BoolV_list.mp hf))
+          rw [if_pos hl]
+          refine Inert.bind (zipWithM'_inert (fun a b ha hb hab => ih a b ha hb hab) ts fs (BoolV_list.mp ht) (BoolV_list.mp hf) hz')
             (fun rs hrs => Inert.pure (BoolV_list.mpr hrs))
         case tuple fs =>
+          obtain ⟨hl, hz'⟩ := zipOk_tuple hz
           dsimp only
-          refine Inert.bind (zipWithM'_inert (fun a b ha hb => ih a b ha hb) ts fs (BoolV_list.mp ht) (BoolV_tuple.mp hf))
+          rw [if_pos hl]
+          refine Inert.bind (zipWithM'_inert (fun a b ha hb hab => ih a b ha hb hab) ts fs (BoolV_list.mp ht) (BoolV_tuple.mp hf) hz')
             (fun rs hrs => Inert.pure (BoolV_list.mpr hrs))
         all_goals exact Inert.tyErr
       case fxp x =>
@@ -383,8 +388,8 @@ def iteOk : Val → Bool
   | .int c => isBooleanValue c
   | _ => true
 
-theorem ifThenElse_inert {cond : Val} (same : Bool) {t f : Val} (hc : iteOk cond = true) (hcb : BoolV cond) (ht : BoolV t) (hf : BoolV f) :
-    InertV p res (ifThenElse cond same t f) := by
+theorem ifThenElse_inert {cond : Val} (same : Bool) {t f : Val} (hc : iteOk cond = true) (hcb : BoolV cond) (ht : BoolV t) (hf : BoolV f)
+    (hz : selOk t f = true) : InertV p res (ifThenElse cond same t f) := by
   unfold ifThenElse
   split
   · exact Inert.pure ht
@@ -396,7 +401,7 @@ theorem ifThenElse_inert {cond : Val} (same : Bool) {t f : Val} (hc : iteOk cond
       simp only [this, Bool.false_eq_true, if_false]
       refine Inert.pure ?_
       split <;> assumption
-    case lcb c => exact iteAux_inert (BoolV_lcb.mp hcb) _ t f ht hf
+    case lcb c => exact iteAux_inert (BoolV_lcb.mp hcb) _ t f ht hf hz
     all_goals exact Inert.raise rfl
 
 /-! ## unary -/
